@@ -38,6 +38,8 @@ type Session struct {
 	Lines     int // number of input lines read so far
 	BytesSent int
 	Chunks    int
+	Splits    int // replies delivered in more than one chunk
+	Delays    int // replies delayed
 }
 
 func New(log *evlog.Log, sched *tape.Tape, quiesce func()) *Session {
@@ -103,6 +105,7 @@ func (s *Session) Send(text string) {
 		if k := s.Sched.Next(8); k >= 6 && s.MaxDelay > 0 {
 			d := time.Duration(1+s.Sched.Next(int(s.MaxDelay/time.Millisecond))) * time.Millisecond
 			time.Sleep(d)
+			s.Delays++
 		}
 	}
 	var cuts []int
@@ -110,6 +113,9 @@ func (s *Session) Send(text string) {
 		n := s.Sched.Next(4) // number of cuts; 0 = one chunk
 		for i := 0; i < n; i++ {
 			cuts = append(cuts, 1+s.Sched.Next(len(text)-1))
+		}
+		if n > 0 {
+			s.Splits++
 		}
 	}
 	s.SendChunks(text, cuts)
